@@ -268,6 +268,32 @@ Definition status_patch_ans (f : fault) (cgone stale : bool) : patch_ans :=
   | None => if cgone then PatchNotFound else if stale then PatchConflict else PatchOk
   end.
 
+(* awaitDrain -> awaitVolumeDetachment -> awaitInstanceTermination, the status patch, the finalizer *)
+Definition node_tail (w : world) (i : Z) (f : fault) (oc : option claim) (dl : option Z) (cgone stale : bool)
+  : list eff * res :=
+  let hc := is_some oc in
+  let cs0 : conds := match oc with Some c => (c_drained c, c_vol c, c_term c) | None => (DNone, VNone, false) end in
+  let a := await_drain hc i w f dl cs0 in
+  (* persist the conditions when they changed *)
+  let '(e4, stop4) :=
+    if hc && negb (conds_eqb cs0 (a_conds a)) then
+      let '(d, v, t) := a_conds a in
+      match status_patch_ans f cgone stale with
+      | PatchOk => ([EStatus true d v t], None)
+      | PatchNotFound => ([EStatus false d v t], None)
+      | PatchConflict => ([EStatus false d v t], Some RRequeue)
+      | PatchOther => ([EStatus false d v t], Some RErr)
+      end
+    else ([], None) in
+  match stop4 with
+  | Some r => (a_effs a ++ e4, r)
+  | None =>
+      match a_res a with
+      | ROk => let '(e, r) := rm_node_fin i f in (a_effs a ++ e4 ++ e, r)
+      | r => (a_effs a ++ e4, r)
+      end
+  end.
+
 Definition node_finalize (w : world) (n : node) (f : fault) : list eff * res :=
   let i := n_id n in
   let s0 := w_inst w in
@@ -298,7 +324,7 @@ Definition node_finalize (w : world) (n : node) (f : fault) : list eff * res :=
          end in
   match short with
   | Some false => (e1 ++ e2, RErr)
-  | Some true => let '(e, r) := rm_node_fin i f in (e1 ++ e2 ++ e, r)
+  | Some true => let '(e, r) := rm_node_fin i f in ((e1 ++ e2) ++ e, r)
   | None =>
   match term_time oc with None => (e1 ++ e2, RErr) | Some dl =>
   (* Terminator.Taint *)
@@ -309,27 +335,10 @@ Definition node_finalize (w : world) (n : node) (f : fault) : list eff * res :=
          | Some _ => ([ETaint i false], Some RErr)
          | None => ([ETaint i true], None)
          end in
-  match stop3 with Some r => (e1 ++ e2 ++ e3, r) | None =>
-  let hc := is_some oc in
-  let cs0 : conds := match oc with Some c => (c_drained c, c_vol c, c_term c) | None => (DNone, VNone, false) end in
-  let a := await_drain hc i w f dl cs0 in
-  let pre := e1 ++ e2 ++ e3 ++ a_effs a in
-  (* persist the conditions when they changed *)
-  let '(e4, stop4) :=
-    if hc && negb (conds_eqb cs0 (a_conds a)) then
-      let '(d, v, t) := a_conds a in
-      match status_patch_ans f cgone stale with
-      | PatchOk => ([EStatus true d v t], None)
-      | PatchNotFound => ([EStatus false d v t], None)
-      | PatchConflict => ([EStatus false d v t], Some RRequeue)
-      | PatchOther => ([EStatus false d v t], Some RErr)
-      end
-    else ([], None) in
-  match stop4 with Some r => (pre ++ e4, r) | None =>
-  match a_res a with
-  | ROk => let '(e, r) := rm_node_fin i f in (pre ++ e4 ++ e, r)
-  | r => (pre ++ e4, r)
-  end end end end end end.
+  match stop3 with
+  | Some r => ((e1 ++ e2) ++ e3, r)
+  | None => let '(et, r) := node_tail w i f oc dl cgone stale in ((e1 ++ e2) ++ e3 ++ et, r)
+  end end end end.
 
 Definition node_reconcile (w : world) (i : Z) (f : fault) : list eff * res :=
   match get_node i (w_nodes w) with
@@ -630,9 +639,9 @@ Definition claim_fin_ok_b (w : world) : bool :=
       && inst_absent (w_inst w)
   end.
 
-(* a completed deletion: the claim object is gone; orphan = the instance still exists *)
-Definition orphan (w : world) : bool :=
-  match w_claim w with None => negb (inst_absent (w_inst w)) | Some _ => false end.
+(* a completed deletion that leaks: the claim object disappears while the provider still holds the instance *)
+Definition orphaned (pre post : world) : bool :=
+  is_some (w_claim pre) && negb (is_some (w_claim post)) && negb (inst_absent (w_inst post)).
 
 (* the world at the instant of the last write of a reconcile *)
 Definition instant (w : world) (es : list eff) : world := apply_effs w (removelast es).
@@ -644,14 +653,12 @@ Definition persists (o : op) : bool :=
   | _ => true
   end.
 
-(* initial worlds: an instance exists only for a claim that carries the finalizer and the provider id *)
-Definition launched_persisted (w : world) : Prop :=
-  match w_claim w with
-  | None => inst_absent (w_inst w) = true
-  | Some c => w_inst w <> INone -> c_fin c = true /\ c_pid c = true
-  end.
-Definition finalizer_before_launch (w : world) : Prop :=
-  match w_claim w with
-  | None => inst_absent (w_inst w) = true
-  | Some c => w_inst w <> INone -> c_fin c = true
-  end.
+(* well-formed worlds. [finalizer_before_launch]: an instance exists only for a claim that carries the finalizer
+   (C14: the finalizer is added before Create). [launched_persisted]: ... and that recorded the provider id. *)
+Definition never_created (s : inst) : bool := match s with INone => true | _ => false end.
+Definition finalizer_before_launch_b (w : world) : bool :=
+  match w_claim w with None => true | Some c => never_created (w_inst w) || c_fin c end.
+Definition launched_persisted_b (w : world) : bool :=
+  match w_claim w with None => true | Some c => never_created (w_inst w) || (c_fin c && c_pid c) end.
+Definition finalizer_before_launch (w : world) : Prop := finalizer_before_launch_b w = true.
+Definition launched_persisted (w : world) : Prop := launched_persisted_b w = true.
